@@ -1,0 +1,261 @@
+//go:build verif
+
+// Contracts for the validator punishment and ranking functions (comment-only).
+// status values: Pending 1, Active 2, Tombstoned 3, Downgrade 4, Inactive 5.
+package keeper
+
+// Elements of a well-formed sdk.Coins value (A-sdk: sorted, unique denominations, positive amounts).
+// The engine's own element axioms (trigger (select (arr c) (+ (off c) i)), two-term trigger for distinctness) did not
+// instantiate in the queries of the slashing / locking loops (see NOTES.md (d)1), so the facts are stated here over
+// cat(c, i), the i-th element, with the trigger (cat c i); loop invariants mention cat(L, rangeindex+1) to provide the term:
+//   cat.def      cat(c, i) is the i-th element
+//   cat.elem     (engine axiom restated) amount_i > 0 and AmountOf(denom_i) == amount_i
+//   cidx.total   (NEW assumption, true of AmountOf) AmountOf(d) > 0 only if d is the denomination of element cidx(c, d)
+//   cidx.unique  (consequence of cidx.total and the engine's distinct-denominations axiom) cidx(c, denom_i) == i
+//@ smt (declare-fun cat (Slc_T_cosmos_sdk_types_Coin Int) T_cosmos_sdk_types_Coin)
+//@   (declare-fun cidx (Slc_T_cosmos_sdk_types_Coin Bytes) Int)
+//@   (assert (forall ((c Slc_T_cosmos_sdk_types_Coin) (i Int)) (! (= (cat c i) (select (arr_Slc_T_cosmos_sdk_types_Coin c) (+ (off_Slc_T_cosmos_sdk_types_Coin c) i))) :pattern ((cat c i)))))
+//@   (assert (forall ((c Slc_T_cosmos_sdk_types_Coin) (i Int)) (! (=> (and (coins.wf c) (<= 0 i) (< i (len_Slc_T_cosmos_sdk_types_Coin c)))
+//@     (and (> (T_cosmos_sdk_types_Coin.Amount (cat c i)) 0) (= (coins.amt c (T_cosmos_sdk_types_Coin.Denom (cat c i))) (T_cosmos_sdk_types_Coin.Amount (cat c i)))
+//@          (= (cidx c (T_cosmos_sdk_types_Coin.Denom (cat c i))) i))) :pattern ((cat c i)))))
+//@   (assert (forall ((c Slc_T_cosmos_sdk_types_Coin) (d Bytes)) (! (=> (and (coins.wf c) (> (coins.amt c d) 0))
+//@     (and (<= 0 (cidx c d)) (< (cidx c d) (len_Slc_T_cosmos_sdk_types_Coin c)) (= (T_cosmos_sdk_types_Coin.Denom (cat c (cidx c d))) d)))
+//@     :pattern ((cidx c d)))))
+
+// ---- C14: downtime -----------------------------------------------------------------------
+
+//@ func (Keeper).handleVoteInfo
+//@ property C14 C13 C11
+//@ let v0 = old(st.locking.Validators[address])
+//@ let v1 = st.locking.Validators[address]
+//@ let L = old(st.locking.Validators[address].Locking)
+//@ let absent = ite(signed == 1, 1, 0)
+//@ let down = (v0.SigningInfo.Missed + absent >= param.MaxMissedPerWindow)
+//@ let wraps = (v0.SigningInfo.Offset + 1 >= param.SignedBlocksWindow)
+//@ let dsl = (ite(has(st.locking.Slashed, d), st.locking.Slashed[d], 0) - old(ite(has(st.locking.Slashed, d), st.locking.Slashed[d], 0)))
+//@ let fr = param.SlashFractionDowntime
+//@ let truncfrac = ((1 <= dsl && dsl * 1000000000000000000 <= amt(L, d) * fr + 1 && (dsl + 1) * 1000000000000000000 > amt(L, d) * fr - 1) || (dsl == amt(L, d) && 1000000000000000000 > amt(L, d) * fr - 1))
+//@ requires args: param != nil
+//@ requires fraction: 0 < param.SlashFractionDowntime && param.SlashFractionDowntime < 1000000000000000000
+//@ requires window: param.SignedBlocksWindow >= 1
+//@ requires counters: 0 <= st.locking.Validators[address].SigningInfo.Missed && st.locking.Validators[address].SigningInfo.Missed <= st.locking.Validators[address].SigningInfo.Offset && st.locking.Validators[address].SigningInfo.Offset < 9223372036854775807
+//@ ensures never_fails: old(has(st.locking.Validators, address)) ==> err == nil
+//@ ensures not_active_untouched: err == nil && v0.Status != 2 ==> unchanged(st.locking.Validators) && unchanged(st.locking.PowerRanking) && unchanged(st.locking.Locking) && unchanged(st.locking.Slashed)
+//@ ensures counters: err == nil && v0.Status == 2 ==> v1.SigningInfo.Missed == ite(wraps, 0, v0.SigningInfo.Missed + absent) && v1.SigningInfo.Offset == ite(wraps, 0, v0.SigningInfo.Offset + 1)
+//@ ensures still_stored: err == nil ==> has(st.locking.Validators, address)
+//@ ensures counters_inv: err == nil ==> 0 <= v1.SigningInfo.Missed && v1.SigningInfo.Missed <= v1.SigningInfo.Offset && v1.SigningInfo.Offset < 9223372036854775807 && (v0.Status == 2 ==> v1.SigningInfo.Offset < param.SignedBlocksWindow)
+//@ ensures up_unpunished: err == nil && v0.Status == 2 && !down ==> v1.Status == 2 && v1.Power == v0.Power && v1.Locking == v0.Locking && v1.JailedUntil == v0.JailedUntil
+//@           && unchanged(st.locking.PowerRanking) && unchanged(st.locking.Locking) && unchanged(st.locking.Slashed)
+//@ ensures down_demoted: err == nil && v0.Status == 2 && down ==> v1.Status == 4 && v1.Power == 0 && v1.JailedUntil == blocktime() + param.DowntimeJailDuration
+//@ ensures down_unranked: err == nil && v0.Status == 2 && down ==> !has(st.locking.PowerRanking, pair(v0.Power, address))
+//@ ensures down_unindexed: err == nil && v0.Status == 2 && down ==> forallb(d, amt(L, d) > 0 ==> !has(st.locking.Locking, pair(d, address)))
+//@ ensures down_slashed: err == nil && v0.Status == 2 && down ==> forallb(d, amt(v1.Locking, d) + dsl == amt(L, d) && 0 <= dsl && dsl <= amt(L, d) && (amt(L, d) > 0 ==> dsl >= 1))
+//@ ensures down_fraction: err == nil && v0.Status == 2 && down ==> forallb(d, amt(L, d) > 0 ==> truncfrac)
+//@ ensures others_untouched: err == nil ==> forallb(a, a != address ==> has(st.locking.Validators, a) == old(has(st.locking.Validators, a)) && st.locking.Validators[a] == old(st.locking.Validators[a]))
+//@ ensures rewards_kept: err == nil ==> v1.Reward == v0.Reward && v1.GasReward == v0.GasReward && v1.Pubkey == v0.Pubkey
+//@ writesite locking.Validators tombstone_absorbing: has(st.locking.Validators, key) && st.locking.Validators[key].Status == 3 ==> val.Status == 3 && val.Power == 0
+//@ writesite locking.Validators tombstone_powerless: val.Status == 3 ==> val.Power == 0
+//@ writesite locking.Validators only_target: key == address
+//@ loop 0 invariant idx: -1 <= rangeindex && rangeindex < len(validator.Locking)
+//@ loop 0 invariant next: validator.Locking == L && cat(L, rangeindex + 1) == L[rangeindex + 1]
+//@ loop 0 invariant slashed: forallb(d, ite(amt(L, d) > 0 && cidx(L, d) <= rangeindex,
+//@           amt(updated, d) + dsl == amt(L, d) && 1 <= dsl && dsl <= amt(L, d) && !has(st.locking.Locking, pair(d, address)) && truncfrac,
+//@           amt(updated, d) == 0 && dsl == 0))
+//@ modifies st.locking.Validators, st.locking.PowerRanking, st.locking.Locking, st.locking.Slashed
+
+// the per-block loop over the vote records
+//@ func (Keeper).HandleVoteInfos
+//@ property C14 C13
+//@ requires fraction: 0 < st.locking.Params.SlashFractionDowntime && st.locking.Params.SlashFractionDowntime < 1000000000000000000
+//@ requires window: st.locking.Params.SignedBlocksWindow >= 1
+//@ requires counters_all: forallb(a, 0 <= st.locking.Validators[a].SigningInfo.Missed && st.locking.Validators[a].SigningInfo.Missed <= st.locking.Validators[a].SigningInfo.Offset && st.locking.Validators[a].SigningInfo.Offset < 9223372036854775807)
+//@ requires voters_known: forall(j, 0, len(voteinfos()), has(st.locking.Validators, voteinfos()[j].Validator.Address))
+//@ ensures never_fails: has(st.locking.Params) ==> err == nil
+//@ ensures inactive_untouched: err == nil ==> forallb(a, old(has(st.locking.Validators, a)) && old(st.locking.Validators[a].Status) != 2 ==> has(st.locking.Validators, a) && st.locking.Validators[a] == old(st.locking.Validators[a]))
+//@ ensures counters_all: err == nil ==> forallb(a, 0 <= st.locking.Validators[a].SigningInfo.Missed && st.locking.Validators[a].SigningInfo.Missed <= st.locking.Validators[a].SigningInfo.Offset && st.locking.Validators[a].SigningInfo.Offset < 9223372036854775807)
+//@ ensures same_set: err == nil ==> forallb(a, has(st.locking.Validators, a) == old(has(st.locking.Validators, a)))
+//@ loop 0 invariant idx: -1 <= rangeindex && rangeindex < len(voteinfos())
+//@ loop 0 invariant param: *param == st.locking.Params
+//@ loop 0 invariant inactive_untouched: forallb(a, old(has(st.locking.Validators, a)) && old(st.locking.Validators[a].Status) != 2 ==> has(st.locking.Validators, a) && st.locking.Validators[a] == old(st.locking.Validators[a]))
+//@ loop 0 invariant counters_all: forallb(a, 0 <= st.locking.Validators[a].SigningInfo.Missed && st.locking.Validators[a].SigningInfo.Missed <= st.locking.Validators[a].SigningInfo.Offset && st.locking.Validators[a].SigningInfo.Offset < 9223372036854775807)
+//@ loop 0 invariant same_set: forallb(a, has(st.locking.Validators, a) == old(has(st.locking.Validators, a)))
+//@ modifies st.locking.Validators, st.locking.PowerRanking, st.locking.Locking, st.locking.Slashed
+
+// ---- C14: double-sign / light-client-attack evidence ---------------------------------------
+
+//@ pure-iface cosmossdk.io/core/comet.Evidence
+//@ pure-iface cosmossdk.io/core/comet.Validator
+
+// values of sdk.Context.ConsensusParams().Evidence the handler looks at (linked to the context by summ_lock.go)
+//@ smt (declare-fun ctxEvSet () Bool) (declare-fun ctxEvMaxAgeDuration () Int) (declare-fun ctxEvMaxAgeNumBlocks () Int)
+
+//@ func (Keeper).handleEvidence
+//@ property C14 C13 C11
+//@ let addr = evidence.Validator().Address()
+//@ let v0 = old(st.locking.Validators[evidence.Validator().Address()])
+//@ let v1 = st.locking.Validators[evidence.Validator().Address()]
+//@ let L = old(st.locking.Validators[evidence.Validator().Address()].Locking)
+//@ let sane = (blockheight() >= 0 && evidence.Height() >= 0)
+//@ let tooold = (ctxEvSet() && blocktime() - evidence.Time() > ctxEvMaxAgeDuration() && blockheight() - evidence.Height() > ctxEvMaxAgeNumBlocks())
+//@ let ignored = (tooold || v0.Status == 3)
+//@ let punished = (v0.Status != 3 && v1.Status == 3)
+//@ let dsl = (ite(has(st.locking.Slashed, d), st.locking.Slashed[d], 0) - old(ite(has(st.locking.Slashed, d), st.locking.Slashed[d], 0)))
+//@ let fr = param.SlashFractionDoubleSign
+//@ let truncfrac = ((1 <= dsl && dsl * 1000000000000000000 <= amt(L, d) * fr + 1 && (dsl + 1) * 1000000000000000000 > amt(L, d) * fr - 1) || (dsl == amt(L, d) && 1000000000000000000 > amt(L, d) * fr - 1))
+//@ requires args: param != nil
+//@ requires fraction: 0 < param.SlashFractionDoubleSign && param.SlashFractionDoubleSign < 1000000000000000000
+//@ ensures never_fails: old(has(st.locking.Validators, addr)) || (sane && tooold) ==> err == nil
+//@ ensures ignored: err == nil && sane && ignored ==> unchanged(st.locking.Validators) && unchanged(st.locking.PowerRanking) && unchanged(st.locking.Locking) && unchanged(st.locking.Slashed)
+//@ ensures tombstoned_untouched: err == nil && v0.Status == 3 ==> unchanged(st.locking.Validators) && unchanged(st.locking.PowerRanking) && unchanged(st.locking.Locking) && unchanged(st.locking.Slashed)
+//@ ensures all_or_nothing: err == nil ==> punished || (unchanged(st.locking.Validators) && unchanged(st.locking.PowerRanking) && unchanged(st.locking.Locking) && unchanged(st.locking.Slashed))
+//@ ensures tombstoned: err == nil && sane && !ignored ==> punished
+//@ ensures powerless: err == nil && punished ==> old(has(st.locking.Validators, addr)) && has(st.locking.Validators, addr) && v1.Power == 0
+//@ ensures unranked: err == nil && punished ==> !has(st.locking.PowerRanking, pair(v0.Power, addr))
+//@ ensures unindexed: err == nil && punished ==> forallb(d, amt(L, d) > 0 ==> !has(st.locking.Locking, pair(d, addr)))
+//@ ensures slashed: err == nil && punished ==> forallb(d, amt(v1.Locking, d) + dsl == amt(L, d) && 0 <= dsl && dsl <= amt(L, d) && (amt(L, d) > 0 ==> dsl >= 1))
+//@ ensures fraction: err == nil && punished ==> forallb(d, amt(L, d) > 0 ==> truncfrac)
+//@ ensures others_untouched: err == nil ==> forallb(a, a != addr ==> has(st.locking.Validators, a) == old(has(st.locking.Validators, a)) && st.locking.Validators[a] == old(st.locking.Validators[a]))
+//@ ensures rest_kept: err == nil ==> v1.Reward == v0.Reward && v1.GasReward == v0.GasReward && v1.Pubkey == v0.Pubkey && v1.SigningInfo == v0.SigningInfo && v1.JailedUntil == v0.JailedUntil
+//@ writesite locking.Validators tombstone_absorbing: has(st.locking.Validators, key) && st.locking.Validators[key].Status == 3 ==> val.Status == 3 && val.Power == 0
+//@ writesite locking.Validators tombstone_powerless: val.Status == 3 ==> val.Power == 0
+//@ writesite locking.Validators only_target: key == addr
+//@ loop 0 invariant idx: -1 <= rangeindex && rangeindex < len(validator.Locking)
+//@ loop 0 invariant next: validator.Locking == L && cat(L, rangeindex + 1) == L[rangeindex + 1]
+//@ loop 0 invariant slashed: forallb(d, ite(amt(L, d) > 0 && cidx(L, d) <= rangeindex,
+//@           amt(updated, d) + dsl == amt(L, d) && 1 <= dsl && dsl <= amt(L, d) && !has(st.locking.Locking, pair(d, addr)) && truncfrac,
+//@           amt(updated, d) == 0 && dsl == 0))
+//@ modifies st.locking.Validators, st.locking.PowerRanking, st.locking.Locking, st.locking.Slashed
+
+// the per-block loop over the evidence list
+//@ pure-iface cosmossdk.io/core/comet.BlockInfo
+//@ pure-iface cosmossdk.io/core/comet.EvidenceList
+//@ func (Keeper).HandleEvidences
+//@ property C14
+//@ requires fraction: 0 < st.locking.Params.SlashFractionDoubleSign && st.locking.Params.SlashFractionDoubleSign < 1000000000000000000
+//@ requires tombstone_powerless: forallb(a, st.locking.Validators[a].Status == 3 ==> st.locking.Validators[a].Power == 0)
+//@ ensures tombstone_absorbing: err == nil ==> forallb(a, old(has(st.locking.Validators, a)) && old(st.locking.Validators[a].Status) == 3 ==> has(st.locking.Validators, a) && st.locking.Validators[a] == old(st.locking.Validators[a]))
+//@ ensures tombstone_powerless: err == nil ==> forallb(a, st.locking.Validators[a].Status == 3 ==> st.locking.Validators[a].Power == 0)
+//@ ensures only_tombstones: err == nil ==> forallb(a, has(st.locking.Validators, a) == old(has(st.locking.Validators, a)) && ((st.locking.Validators[a].Status == 3 && st.locking.Validators[a].Power == 0) || st.locking.Validators[a] == old(st.locking.Validators[a])))
+//@ loop 0 invariant param: *param == st.locking.Params
+//@ loop 0 invariant tombstone_absorbing: forallb(a, old(has(st.locking.Validators, a)) && old(st.locking.Validators[a].Status) == 3 ==> has(st.locking.Validators, a) && st.locking.Validators[a] == old(st.locking.Validators[a]))
+//@ loop 0 invariant tombstone_powerless: forallb(a, st.locking.Validators[a].Status == 3 ==> st.locking.Validators[a].Power == 0)
+//@ loop 0 invariant only_tombstones: forallb(a, has(st.locking.Validators, a) == old(has(st.locking.Validators, a)) && ((st.locking.Validators[a].Status == 3 && st.locking.Validators[a].Power == 0) || st.locking.Validators[a] == old(st.locking.Validators[a])))
+//@ modifies st.locking.Validators, st.locking.PowerRanking, st.locking.Locking, st.locking.Slashed
+
+// lockpow(c, tok, n): voting power added by the first n coins of c under the token table tok
+// (weight * amount / 10^18 for tokens with a positive weight).
+//@ smt (define-fun-rec lockpow ((c Slc_T_cosmos_sdk_types_Coin) (tok (Array Bytes T_locking_types_Token)) (n Int)) Int
+//@   (ite (<= n 0) 0 (+ (lockpow c tok (- n 1))
+//@     (ite (> (T_locking_types_Token.Weight (select tok (T_cosmos_sdk_types_Coin.Denom (select (arr_Slc_T_cosmos_sdk_types_Coin c) (+ (off_Slc_T_cosmos_sdk_types_Coin c) (- n 1)))))) 0)
+//@          (div (* (T_locking_types_Token.Weight (select tok (T_cosmos_sdk_types_Coin.Denom (select (arr_Slc_T_cosmos_sdk_types_Coin c) (+ (off_Slc_T_cosmos_sdk_types_Coin c) (- n 1))))))
+//@                  (T_cosmos_sdk_types_Coin.Amount (select (arr_Slc_T_cosmos_sdk_types_Coin c) (+ (off_Slc_T_cosmos_sdk_types_Coin c) (- n 1))))) 1000000000000000000)
+//@          0))))
+
+//@ func (Keeper).lock
+//@ property C13 C14 C11
+//@ let v0 = old(st.locking.Validators[target])
+//@ let v1 = st.locking.Validators[target]
+//@ let unjail = (blocktime() > v0.JailedUntil && v1.Locking.IsAllGTE(st.locking.Threshold.List))
+//@ requires tombstone_powerless: st.locking.Validators[target].Status == 3 ==> st.locking.Validators[target].Power == 0
+//@ ensures locking_grows: err == nil ==> forallb(d, amt(v1.Locking, d) == amt(v0.Locking, d) + amt(coins, d))
+//@ ensures no_effect: err == nil && (v0.Status == 3 || v0.Status == 5) ==> v1.Status == v0.Status && v1.Power == v0.Power && unchanged(st.locking.PowerRanking) && unchanged(st.locking.Locking)
+//@ ensures jailed_stays: err == nil && v0.Status == 4 && !unjail ==> v1.Status == 4 && v1.Power == v0.Power && unchanged(st.locking.PowerRanking) && unchanged(st.locking.Locking)
+//@ ensures unjailed: err == nil && v0.Status == 4 && unjail ==> v1.Status == 1
+//@ ensures candidate_stays: err == nil && (v0.Status == 1 || v0.Status == 2) ==> v1.Status == v0.Status
+//@ ensures candidate_power: err == nil && (v0.Status == 1 || v0.Status == 2) ==> v1.Power == (v0.Power + lockpow(coins, mapval(st.locking.Tokens), len(coins))) % 18446744073709551616
+//@ ensures unjailed_power: err == nil && v0.Status == 4 && unjail ==> v1.Power == (v0.Power + lockpow(v1.Locking, mapval(st.locking.Tokens), len(v1.Locking))) % 18446744073709551616
+//@ ensures candidate_index: err == nil && (v0.Status == 1 || v0.Status == 2) ==> forallb(d, ite(amt(coins, d) > 0,
+//@           has(st.locking.Locking, pair(d, target)) && st.locking.Locking[pair(d, target)] == amt(v1.Locking, d),
+//@           has(st.locking.Locking, pair(d, target)) == old(has(st.locking.Locking, pair(d, target))) && st.locking.Locking[pair(d, target)] == old(st.locking.Locking[pair(d, target)])))
+//@ ensures unjailed_index: err == nil && v0.Status == 4 && unjail ==> forallb(d, amt(v1.Locking, d) > 0 ==> has(st.locking.Locking, pair(d, target)) && st.locking.Locking[pair(d, target)] == amt(v1.Locking, d))
+//@ ensures index_others: err == nil ==> forallb(d, forallb(a, a != target ==> has(st.locking.Locking, pair(d, a)) == old(has(st.locking.Locking, pair(d, a))) && st.locking.Locking[pair(d, a)] == old(st.locking.Locking[pair(d, a)])))
+//@ ensures ranked_current: err == nil && (v1.Status == 1 || v1.Status == 2) ==> has(st.locking.PowerRanking, pair(v1.Power, target))
+//@ ensures stale_rank_removed: err == nil && (v0.Status == 1 || v0.Status == 2) && v1.Power != v0.Power ==> !has(st.locking.PowerRanking, pair(v0.Power, target))
+//@ ensures others_untouched: err == nil ==> forallb(a, a != target ==> has(st.locking.Validators, a) == old(has(st.locking.Validators, a)) && st.locking.Validators[a] == old(st.locking.Validators[a]))
+//@ ensures rest_kept: err == nil ==> v1.Reward == v0.Reward && v1.GasReward == v0.GasReward && v1.Pubkey == v0.Pubkey && v1.SigningInfo == v0.SigningInfo && v1.JailedUntil == v0.JailedUntil
+//@ writesite locking.Validators tombstone_absorbing: has(st.locking.Validators, key) && st.locking.Validators[key].Status == 3 ==> val.Status == 3 && val.Power == 0
+//@ writesite locking.Validators tombstone_powerless: val.Status == 3 ==> val.Power == 0
+//@ writesite locking.Validators only_target: key == target
+//@ writesite locking.PowerRanking [C13] positive: key == pair(validator.Power, target) && validator.Power > 0
+//@ loop 0 invariant idx: -1 <= rangeindex && rangeindex < len(coins)
+//@ loop 0 invariant next: cat(coins, rangeindex + 1) == coins[rangeindex + 1]
+//@ loop 0 invariant pow: validator.Power == (v0.Power + lockpow(coins, mapval(st.locking.Tokens), rangeindex + 1)) % 18446744073709551616
+//@ loop 0 invariant index: forallb(d, ite(amt(coins, d) > 0 && cidx(coins, d) <= rangeindex,
+//@           has(st.locking.Locking, pair(d, target)) && st.locking.Locking[pair(d, target)] == amt(validator.Locking, d),
+//@           has(st.locking.Locking, pair(d, target)) == old(has(st.locking.Locking, pair(d, target))) && st.locking.Locking[pair(d, target)] == old(st.locking.Locking[pair(d, target)])))
+//@ loop 0 invariant index_others: forallb(d, forallb(a, a != target ==> has(st.locking.Locking, pair(d, a)) == old(has(st.locking.Locking, pair(d, a))) && st.locking.Locking[pair(d, a)] == old(st.locking.Locking[pair(d, a)])))
+//@ loop 1 invariant idx: -1 <= rangeindex && rangeindex < len(validator.Locking)
+//@ loop 1 invariant next: cat(validator.Locking, rangeindex + 1) == validator.Locking[rangeindex + 1]
+//@ loop 1 invariant pow: validator.Power == (v0.Power + lockpow(validator.Locking, mapval(st.locking.Tokens), rangeindex + 1)) % 18446744073709551616
+//@ loop 1 invariant index: forallb(d, amt(validator.Locking, d) > 0 && cidx(validator.Locking, d) <= rangeindex ==> has(st.locking.Locking, pair(d, target)) && st.locking.Locking[pair(d, target)] == amt(validator.Locking, d))
+//@ loop 1 invariant index_others: forallb(d, forallb(a, a != target ==> has(st.locking.Locking, pair(d, a)) == old(has(st.locking.Locking, pair(d, a))) && st.locking.Locking[pair(d, a)] == old(st.locking.Locking[pair(d, a)])))
+//@ modifies st.locking.Validators, st.locking.PowerRanking, st.locking.Locking
+
+// (Keeper).Lock: no contract — the engine does not support `range` over a Go map (the second loop of Lock).
+
+// ---- C15: begin-block sweep of mature unlocks ---------------------------------------------------
+// Ghost sequence of a collections.Map.Walk (see summ_lock.go): walkn entries, walkkey(i) / walkval(i) the i-th key /
+// value in iteration order, walkrank the inverse of walkkey on the visited keys; walkstep is the step at which the
+// closure is verified (`walki` in contracts). wlen(j) / wel(j, r): number of unlocks of the j-th entry / its r-th unlock;
+// woff(k): number of unlocks in the first k entries.
+//@ smt (declare-fun walkn () Int) (declare-fun walkstep () Int) (declare-fun walkkey (Int) Int) (declare-fun walkrank (Int) Int)
+//@   (declare-fun walkval (Int) T_locking_types_Unlocks)
+//@   (define-fun wlen ((j Int)) Int (len_Slc_Opt_T_locking_types_Unlock (T_locking_types_Unlocks.Unlocks (walkval j))))
+//@   (declare-fun wel (Int Int) Opt_T_locking_types_Unlock)
+//@   (assert (forall ((j Int) (r Int)) (! (= (wel j r) (select (arr_Slc_Opt_T_locking_types_Unlock (T_locking_types_Unlocks.Unlocks (walkval j))) (+ (off_Slc_Opt_T_locking_types_Unlock (T_locking_types_Unlocks.Unlocks (walkval j))) r))) :pattern ((wel j r)))))
+//@ smt (define-fun-rec woff ((k Int)) Int (ite (<= k 0) 0 (+ (woff (- k 1)) (wlen (- k 1)))))
+// offsinv(k): the offsets of the first k entries are non-negative and each entry ends before woff(k)
+// valsinv(v, base, k): v[base + woff(j) + r] is the r-th unlock of the j-th entry, for the first k entries
+//@ smt (define-fun offsinv ((k Int)) Bool (forall ((j Int)) (! (=> (and (<= 0 j) (< j k)) (and (<= 0 (woff j)) (<= (+ (woff j) (wlen j)) (woff k)))) :pattern ((woff j)))))
+//@ smt (define-fun valsinv ((v Slc_Opt_T_locking_types_Unlock) (base Int) (k Int)) Bool (forall ((j Int) (r Int)) (! (=> (and (<= 0 j) (< j k) (<= 0 r) (< r (wlen j)))
+//@   (= (select (arr_Slc_Opt_T_locking_types_Unlock v) (+ (off_Slc_Opt_T_locking_types_Unlock v) base (woff j) r)) (wel j r))) :pattern ((wel j r)))))
+//@ const walki = walkstep
+
+// the collecting closure: after step k, keys = the first k keys and values = the unlocks of the first k entries, in order
+//@ func (Keeper).DequeueMatureUnlocks$1
+//@ property C15
+//@ requires step: 0 <= walki && key == walkkey(walki) && value == walkval(walki)
+//@ requires keys: len(*keys) == walki && forall(j, 0, walki, (*keys)[j] == walkkey(j))
+//@ requires offs: offsinv(walki)
+//@ requires vals: len(*values) == woff(walki) && valsinv(*values, 0, walki)
+//@ ensures walk_continues: result == false && err == nil
+//@ ensures keys: len(*keys) == walki + 1 && forall(j, 0, walki + 1, (*keys)[j] == walkkey(j))
+//@ ensures offs: woff(walki + 1) >= 0 && offsinv(walki + 1)
+//@ ensures vals: len(*values) == woff(walki + 1) && valsinv(*values, 0, walki + 1)
+//@ modifies keys, values
+
+// the sweep: every entry with time <= block time is removed from the unlock queue and its unlocks are appended to the
+// execution queue, entry by entry in increasing time order, each exactly once (time stamps are ns, |t| < 10^30)
+//@ func (Keeper).DequeueMatureUnlocks
+//@ property C15 C11
+//@ let q0 = old(st.locking.EthTxQueue.Unlocks)
+//@ let q1 = st.locking.EthTxQueue.Unlocks
+//@ let tmin = (0 - 1000000000000000000000000000000)
+//@ let tmax = 1000000000000000000000000000000
+//@ requires queue: has(st.locking.EthTxQueue)
+//@ requires timerange: tmin < blocktime() && blocktime() + 1 < tmax
+//@ ensures never_fails: err == nil
+//@ ensures seq_members: forall(i, 0, walkn(), old(has(st.locking.UnlockQueue, walkkey(i))) && walkkey(i) <= blocktime() && walkval(i) == old(st.locking.UnlockQueue[walkkey(i)]))
+//@ ensures seq_sorted: forall(i, 0, walkn() - 1, walkkey(i) < walkkey(i + 1))
+//@ ensures seq_complete: forall(t, tmin, blocktime() + 1, old(has(st.locking.UnlockQueue, t)) ==> 0 <= walkrank(t) && walkrank(t) < walkn() && walkkey(walkrank(t)) == t)
+//@ ensures swept: forall(t, tmin, blocktime() + 1, !has(st.locking.UnlockQueue, t))
+//@ ensures later_kept: forall(t, blocktime() + 1, tmax, has(st.locking.UnlockQueue, t) == old(has(st.locking.UnlockQueue, t)) && st.locking.UnlockQueue[t] == old(st.locking.UnlockQueue[t]))
+//@ ensures released_count: len(q1) == len(q0) + woff(walkn())
+//@ ensures released_fifo: forall(p, 0, len(q0), q1[p] == q0[p])
+//@ ensures released_in_order: valsinv(q1, len(q0), walkn()) && offsinv(walkn())
+//@ ensures rewards_kept: st.locking.EthTxQueue.Rewards == old(st.locking.EthTxQueue.Rewards)
+//@ ensures nothing_mature: walkn() == 0 ==> unchanged(st.locking.UnlockQueue) && unchanged(st.locking.EthTxQueue)
+//@ loop 0 invariant idx: -1 <= rangeindex && rangeindex < len(*keys)
+//@ loop 0 invariant removed: forall(t, tmin, tmax, has(st.locking.UnlockQueue, t) == (old(has(st.locking.UnlockQueue, t)) && !(t <= blocktime() && walkrank(t) <= rangeindex)) && st.locking.UnlockQueue[t] == old(st.locking.UnlockQueue[t]))
+//@ modifies st.locking.UnlockQueue, st.locking.EthTxQueue
+
+// ---- C13 / C14: validator creation never overwrites a record --------------------------------------
+//@ func (Keeper).createValidator
+//@ property C13 C14
+//@ requires args: req != nil
+//@ ensures existing_kept: err == nil ==> forallb(a, old(has(st.locking.Validators, a)) ==> has(st.locking.Validators, a) && st.locking.Validators[a] == old(st.locking.Validators[a]))
+//@ ensures created_powerless: err == nil ==> forallb(a, has(st.locking.Validators, a) && !old(has(st.locking.Validators, a)) ==> a == req.Validator && st.locking.Validators[a].Power == 0 && len(st.locking.Validators[a].Locking) == 0
+//@           && (st.locking.Validators[a].Status == 1 || st.locking.Validators[a].Status == 5) && st.locking.Validators[a].Reward == 0 && st.locking.Validators[a].GasReward == 0)
+//@ writesite locking.Validators fresh_only: !has(st.locking.Validators, key)
+//@ writesite locking.Validators tombstone_powerless: val.Status == 3 ==> val.Power == 0
+//@ modifies st.locking.Validators
